@@ -150,10 +150,16 @@ def run_shard(args):
     return path, (bad, int(m.group(2))), ""
 
 
-def evaluate(casedir, extra=()):
-    """Compile every shard in casedir; returns (bad [(global index, code)], nontrivial, errors)."""
+def evaluate(casedir, extra=(), max_shards=None):
+    """Compile every shard in casedir (at most max_shards, evenly spread, when given);
+    returns (bad [(global index, code)], nontrivial, errors, meta)."""
     meta = json.load(open(os.path.join(casedir, "meta.json")))
-    shards = [os.path.join(casedir, "cases_%d.v" % k) for k in range(meta["shards"])]
+    ks = list(range(meta["shards"]))
+    if max_shards and len(ks) > max_shards:
+        step = len(ks) / float(max_shards)
+        ks = sorted(set(int(i * step) for i in range(max_shards)))
+        meta = dict(meta, cases=min(meta["cases"], len(ks) * meta["shard_size"]))
+    shards = [os.path.join(casedir, "cases_%d.v" % k) for k in ks]
     bad = []; nt = 0; errors = []
     with ThreadPoolExecutor(max_workers=16) as ex:
         for path, res, err in ex.map(run_shard, [(s, list(extra)) for s in shards]):
@@ -382,7 +388,8 @@ def decide(pid, tier, seed, replay=None):
             casedir = os.path.join(BUILD, "cases", pid, "search-%s" % prof)
             ok, out = harness_gen(pid, "thorough", seed, casedir, prof)
             if ok:
-                bad, nt, errors, meta = evaluate(casedir, extra)
+                # bounded: at most 160 shards (64 000 cases) per profile, spread evenly over the thorough stream
+                bad, nt, errors, meta = evaluate(casedir, extra, max_shards=160)
                 evaluations += meta["cases"]
                 spec_fail += [(casedir, i, c, meta, prof) for i, c in bad if c & 2]
     k = 0
